@@ -31,6 +31,10 @@ structure GState where
   oracle : Option (Std.HashSet (List Tok)) := none
   dynO : Option (List DItem) := none
   opOK : Bool := true
+  /-- members the parser may reject because a conflict was resolved by precedence: 0 = none may,
+  1 = those whose run visits a state of `badStates`, 2 = any -/
+  exempt : Nat := 0
+  badStates : List Nat := []
   -- current case
   cid : String := ""
   err : Bool := false
@@ -153,7 +157,19 @@ def findAux (g : Grammar) (tbl : Table) (prods : List (Nat × List Nat × Nat)) 
       match cands.find? (fun a => (prods.filter fun p => p.1 == R).all (prodOK g tbl ((R, a) :: aux))) with
       | some a => (R, a) :: aux
       | none => aux) aux
-  (List.range (auxSyms.length + 1)).foldl (fun aux _ => pass aux) []
+  let aux0 := (List.range (auxSyms.length + 1)).foldl (fun aux _ => pass aux) []
+  -- repair: the smallest rule that fits an auxiliary symbol's own productions need not be the one its
+  -- users mean (`repeat(seq('c','c'))` also reads as `repeat1('c')`); swap assignments while that
+  -- lowers the number of productions that do not fit
+  let badCount := fun (aux : AuxMap) => (prods.filter fun p => !prodOK g tbl aux p).length
+  let repair := fun (aux : AuxMap) =>
+    auxSyms.foldl (fun aux R =>
+      if badCount aux == 0 then aux else
+      let others := aux.filter fun e => e.1 != R
+      cands.foldl (fun best a =>
+        let aux' := (R, a) :: others
+        if badCount aux' < badCount best then aux' else best) aux) aux
+  if badCount aux0 == 0 then aux0 else (List.range 3).foldl (fun aux _ => repair aux) aux0
 
 
 /-- a cheap bound on the size of `expand` (so that the checked `coverOK` is only run on small expansions) -/
@@ -295,7 +311,7 @@ def onReady (s : GState) : GState × String :=
   -- completeness: `coverOK` (grammar.json ⊆ P, premise of `grammar_cover`) for the canonical flattening P,
   -- and `completeOK` (the table is complete for P, premise of `table_complete`); both ⇒ `parser_complete`.
   -- Without `coverOK` the table is still validated against its own productions.
-  let (cover, complete, nitems) :=
+  let (cover, complete, nitems, badStates) :=
     if safe && tbl.stateCount ≤ 100 && (s.kind == "cfg" || s.kind == "zoo") then
       match startSymbol tbl with
       | some st =>
@@ -316,18 +332,28 @@ def onReady (s : GState) : GState × String :=
             match (List.range tbl.stateCount).findSome? (fun q => ((ann.itemsOf q).find? fun it => !itemOK tbl P allow ann q it).map fun it => (q, it)) with
             | some (q, it) => s!":state{q}:{tbl.symName it.lhs}->{it.rhs.map tbl.symName}@{it.dot}/{tbl.symName it.la}"
             | none => if !firstOK tbl P ann then ":first" else if !startItemsOK tbl P ann st then ":start" else ":other"
-          (covWhy.replace " " "_", (if ok then "true" else "false" ++ why.replace " " "_"), n)
-        else (covWhy.replace " " "_", "na", n)
-      | none => ("na", "nostart", 0)
-    else ("na", "na", 0)
+          let bad := if ok || !cov then [] else
+            (List.range tbl.stateCount).filter fun q => (ann.itemsOf q).any fun it => !itemOK tbl P allow ann q it
+          (covWhy.replace " " "_", (if ok then "true" else "false" ++ why.replace " " "_"), n, bad)
+        else (covWhy.replace " " "_", "na", n, [])
+      | none => ("na", "nostart", 0, [])
+    else ("na", "na", 0, [])
+  let hasPrecs := g.rules.any fun e => hasPrec e.2
+  -- A conflict resolved by precedence/associativity (by design, at generation time) may cost sentences
+  -- when it was a real LR(1) inadequacy rather than an ambiguity.  Only random CFGs with precedence
+  -- annotations can be affected; when both validations hold, `parser_complete` rules it out; when
+  -- the grammar is covered, the run of a lost sentence must pass a state with an unvalidated item.
+  let exempt : Nat :=
+    if s.kind != "cfg" || !hasPrecs || (cover == "true" && complete == "true") then 0
+    else if cover == "true" && !badStates.isEmpty then 1 else 2
   let opOK := match s.optable with
     | some t => decide (g.rules = opGrammarRules t)
     | none => true
   let termsOK := s.terms.all fun t =>
     let i := tbl.syms.getD t.sym default
     i.name == t.tok.name && t.sym < tbl.tokenCount
-  ({ s with tbl := tbl, closed := closed, g := g, oracle := oracle, opOK := opOK, dynO := dynO },
-   s!"G {s.gid} kind={s.kind} closed={closed} rootsafe={rootSafe tbl} tablesafe={safe} cover={cover} complete={complete} prec={g.rules.any fun e => hasPrec e.2} items={nitems} rel={rel} relscope={relScope g tbl} prods={nprods} badprod={badProd.replace " " "_"} states={tbl.stateCount} symbols={tbl.symbolCount} rules={g.rules.length} " ++
+  ({ s with tbl := tbl, closed := closed, g := g, oracle := oracle, opOK := opOK, dynO := dynO, exempt := exempt, badStates := badStates },
+   s!"G {s.gid} kind={s.kind} closed={closed} rootsafe={rootSafe tbl} tablesafe={safe} cover={cover} complete={complete} prec={hasPrecs} multi={((List.range tbl.stateCount).map fun q => ((tbl.acts.getD q []).filter fun e => e.2.length > 1).length).foldl (· + ·) 0} exempt={exempt} items={nitems} rel={rel} relscope={relScope g tbl} prods={nprods} badprod={badProd.replace " " "_"} states={tbl.stateCount} symbols={tbl.symbolCount} rules={g.rules.length} " ++
    s!"repconflict={suspiciousRepetitionCells tbl} simple={simple} oracle={oracle.isSome} dyn={dynO.isSome} L={s.exh} lang={langSize} fix={fix} opgrammar={opOK} terms={termsOK} nterm={s.terms.size}")
 
 def drvName : Outcome → String
@@ -336,6 +362,14 @@ def drvName : Outcome → String
   | .glr => "glr"
   | .fault f => s!"fault:{repr f}"
   | .fuelOut => "fuel"
+
+/-- the states on top of the stack during the model driver's run -/
+def visitedStates (tbl : Table) : Nat → Conf → List Nat → List Nat
+  | 0, _, acc => acc
+  | f + 1, c, acc =>
+    match TsVerif.C03.step tbl c with
+    | .inl c' => visitedStates tbl f c' (topState c.stack :: acc)
+    | .inr _ => topState c.stack :: acc
 
 def runCase (s : GState) : String :=
   let tbl := s.tbl
@@ -404,10 +438,15 @@ def runCase (s : GState) : String :=
       | none, some _ => some "pratt-rejects-real-accepts"
       | none, none => none
     | _, _ => none
+  -- is a rejection of this string attributable to a precedence-resolved conflict?
+  let precLoss : Bool :=
+    s.err && drvName drv == "rej" &&
+    (s.exempt == 2 || (s.exempt == 1 && (visitedStates tbl (fuelFor symToks) { stack := [], toks := symToks } []).any s.badStates.contains))
   let judge : String :=
     match member with
     | some m =>
       if m == !s.err then ""
+      else if m && precLoss then ""
       else if m && s.err && drvName drv == "rej" && acceptsAny tbl (12 * symToks.length + 40) { stack := [], toks := symToks } then
         -- the table WOULD accept if the repetition-flagged shifts the runtime skips were taken
         s!"membership-lost-to-a-skipped-repetition-shift(member={m},has_error={s.err});"
@@ -458,7 +497,7 @@ def runCase (s : GState) : String :=
     | none => 0
   let memS := match member with | some true => "1" | some false => "0" | none => "na"
   let derS := match deriv with | some true => "ok" | some false => "fail" | none => "na"
-  s!"{s.cid} corr={corr} judge={if judge.isEmpty then "ok" else "FAIL " ++ judge} drv={drvName drv} err={if s.err then 1 else 0} member={memS} deriv={derS} prods={prods} len={symToks.length}"
+  s!"{s.cid} corr={corr} judge={if judge.isEmpty then "ok" else "FAIL " ++ judge} drv={drvName drv} err={if s.err then 1 else 0} member={memS} deriv={derS} prods={prods} len={symToks.length} precloss={if precLoss then 1 else 0}"
 
 def step (s : GState) (line : String) : IO GState := do
   if s.mode == 1 then
